@@ -1,11 +1,12 @@
 from common import COMMON_TRUST
 
 PROP = {
-    "generated": ["TimeoutConsts"],
+    "generated": ["TimeoutConsts", "TimeoutSrc"],
     "lean_modules": ["SwimVerif.Model.TimeoutCoord", "SwimVerif.Proofs.TimeoutCoord",
                      "SwimVerif.Generated.TimeoutConsts", "SwimVerif.Model.InactivityRt",
                      "SwimVerif.Proofs.InactivityRt", "SwimVerif.Model.CoordThreads", "SwimVerif.Model.InactivityDl",
-                     "SwimVerif.Proofs.InactivityDl", "SwimVerif.Model.CoordPoll", "SwimVerif.Proofs.CoordPoll"],
+                     "SwimVerif.Proofs.InactivityDl", "SwimVerif.Model.CoordPoll", "SwimVerif.Proofs.CoordPoll",
+                     "SwimVerif.Model.CoordProg", "SwimVerif.Proofs.CoordProg", "SwimVerif.Generated.TimeoutSrc"],
     "engines": [
         {"name": "coord-random", "crate": "core", "bin": "sv-c17", "machine": "c17",
          "features": [], "cases": {"quick": 6000, "thorough": 600000}, "min_shard": 1000},
@@ -53,7 +54,12 @@ PROP = {
                   "below the atomic poll of the main model and is proved separately over Model/CoordPoll, "
                   "C17_poll_no_lost_wakeup, with the one-load variant refuted). 'Stops only by the "
                   "unanimous vote' is false of the agent runtime (C17-N1: no remotes => the write task stops it alone); "
-                  "the downlink runtime model has safety theorems only (its timers are not in the theorems).",
+                  "the downlink runtime model has safety theorems only (its timers are not in the theorems). Translator tie: "
+                  "the statement structure of vote / rescind / Drop / poll is regenerated from timeout_coord/mod.rs on every "
+                  "run (Generated/TimeoutSrc.lean); C17_source_is_model proves the generated programs equal to the model's API "
+                  "steps and C17_source_atomic_accesses that their accesses to the shared word and the AtomicWaker are, in "
+                  "program order, exactly the atomic steps the interleaving models use (incl. load / register / load in poll); "
+                  "the vocabulary tables of tools/extractors/c17.py and the meaning CoordProg.execC gives each primitive are trusted.",
     "trusted_base": COMMON_TRUST + [
         "modelled, not verified: AtomicU8 (single-location total order), futures::task::AtomicWaker",
         "tokio's paused clock (timers fire in deadline order at their exact instants); the harness's bookkeeping of "
